@@ -19,6 +19,8 @@ open AslModel.Generated
 def wrap64 (x : Int) : Int := x % (2 : Int) ^ pcBits
 /-- store into a signed `LongInt` -/
 def toI32 (x : Int) : Int := (x + (2 : Int) ^ (codeLenBits - 1)) % (2 : Int) ^ codeLenBits - (2 : Int) ^ (codeLenBits - 1)
+/-- store into a signed `LargeInt` -/
+def toI64 (x : Int) : Int := (x + (2 : Int) ^ (pcBits - 1)) % (2 : Int) ^ pcBits - (2 : Int) ^ (pcBits - 1)
 def toWord (x : Int) : Int := x % (2 : Int) ^ alignValueBits
 
 def upd {α : Type} (f : Nat → α) (i : Nat) (v : α) : Nat → α := fun j => if j = i then v else f j
@@ -129,9 +131,10 @@ def setNSeg (s : St) (n : Nat) : St × Bool :=
     ({ s2 with used := upd s2.used n true }, true)
   else (s, false)
 
-/-- `BumpStructLength(rec, (LongInt)len)` -/
+/-- `BumpStructLength(rec, (LargeInt)len)` (`TotLen` and the parameter are `LargeInt` since the repair cd7d018; `LongInt`
+before it, which dropped lengths of 2^31 and more as negative) -/
 def bump (f : Frame) (len : Int) : Frame :=
-  if f.totLen < toI32 len then { f with totLen := toI32 len } else f
+  if f.totLen < toI64 len then { f with totLen := toI64 len } else f
 
 /-- `BumpStructLength(pInnermostNamedStruct->StructRec, …)` -/
 def bumpNamed : List Frame → Int → List Frame
@@ -310,7 +313,7 @@ def decode (cfg : Cfg) (s : St) : Op → Dec
 def writeCode (d : Dec) : St × Out :=
   let s := d.s
   if d.crash then (s, { errs := d.errs, defs := d.defs, crash := true })
-  else if s.actPC ≠ structSeg ∧ chkPC s (wrap64 (epc s + d.codeLen - 1)) = false ∧ d.codeLen ≠ 0 then
+  else if s.actPC ≠ structSeg ∧ d.codeLen ≠ 0 ∧ (chkPC s (epc s) = false ∨ chkPC s (wrap64 (epc s + d.codeLen - 1)) = false) then   -- first and last address (repair 6af1385; only the last before it)
     (s, { errs := d.errs ++ [errAdrOverflow], defs := d.defs })
   else
     let newPC := wrap64 (pc s + d.codeLen)
